@@ -172,6 +172,39 @@ var reuseEntries = map[string]entry{
 	},
 }
 
+// keptEntries: the Decoder-loop idiom with the values KEPT - the document is decoded into a variable, the value is
+// copied, ANOTHER document is decoded into the same variable; the copy must still be the outcome of decoding the
+// first document alone (nothing a later decode writes may reach into an earlier result)
+const otherDsc = "Format: 1.0\nSource: zz\nBinary: z1\nArchitecture: all\nVersion: 9\nMaintainer: Z <z@z>\nUploaders: Y <y@y>\nBuild-Depends: zlib1g-dev, perl\nBuild-Depends-Indep: zip\nChecksums-Sha256:\n 0000000000000000000000000000000000000000000000000000000000000000 7 zz_9.tar.gz\nFiles:\n 00000000000000000000000000000000 7 zz_9.tar.gz\n"
+const otherChanges = "Format: 1.8\nSource: zz\nBinary: z1\nArchitecture: all\nVersion: 9\nDistribution: experimental\nUrgency: high\nMaintainer: Z <z@z>\nChanged-By: Z <z@z>\nCloses: 9\nChanges:\n zz\nFiles:\n 00000000000000000000000000000000 7 misc extra zz_9.dsc\n"
+
+var keptEntries = map[string]entry{
+	"dsc": func(in []byte) (string, string, bool) {
+		d := &control.DSC{Filename: "/x/y.dsc"}
+		if err := control.Unmarshal(d, bytes.NewReader(in)); err != nil {
+			return "error", "", true
+		}
+		first := *d
+		if err := control.Unmarshal(d, strings.NewReader(otherDsc)); err != nil {
+			return "error", "other", true
+		}
+		f, a := flatDSC(&first)
+		return "value", dg([]interface{}{f, a}), true
+	},
+	"changes": func(in []byte) (string, string, bool) {
+		c := &control.Changes{Filename: "/x/y.changes"}
+		if err := control.Unmarshal(c, bytes.NewReader(in)); err != nil {
+			return "error", "", true
+		}
+		first := *c
+		if err := control.Unmarshal(c, strings.NewReader(otherChanges)); err != nil {
+			return "error", "other", true
+		}
+		f, a := flatChanges(&first)
+		return "value", dg([]interface{}{f, a}), true
+	},
+}
+
 func guarded(e entry, in []byte, seconds int) (kind, digest string, nilOnErr bool) {
 	type res struct {
 		k, d string
@@ -370,6 +403,10 @@ func execC18(vec J, out *Writer) {
 		// a second decode of the same bytes into the struct that already holds the first result must give the first result
 		if re, ok := reuseEntries[name]; ok && k1 == "value" && k2 == k1 && d2 == d1 {
 			k2, d2, _ = guarded(re, in, 10)
+		}
+		// ... and a copy of the first result must not change when another document is decoded into the same variable
+		if ke, ok := keptEntries[name]; ok && k1 == "value" && k2 == k1 && d2 == d1 {
+			k2, d2, _ = guarded(ke, in, 10)
 		}
 		// the same call with the process in another time zone (time.Local swapped): the outcome depends on the input only
 		if k2 == k1 && d2 == d1 {
